@@ -51,10 +51,6 @@ def run(ctx):
     ok2 = prove(PROPS_USE, ["RotoV.Lemmas.UseTree", "RotoV.Model.UseTree"])
     # the theorems that mention the regenerated pass structure (pass order, per-arm scope, declare_import walk)
     ok3 = prove(PROPS_PASSES)
-    if parts:
-        ctx.coverage["theorems"] = [t for p in parts for t in p["theorems"]]
-        ctx.coverage["nonvacuity_examples"] = sum(p["nonvacuity_examples"] or 0 for p in parts)
-        ctx.coverage["axioms"] = {k: v for p in parts for k, v in (p["axioms"] or {}).items()}
     # the decision of Rt::declare_type (its guards over the registered entries, regenerated): "a Rust type is registered
     # twice" is decided on the Rust type alone, whatever the identifier and the scope
     # + the invariant of the two indexes of Vec<RuntimeType> established for every reachable runtime
@@ -62,6 +58,10 @@ def run(ctx):
     # TypeChecker::declare_runtime_type as facts (target declrtype): the primitive shortcut looks in the registration's
     # own scope only, declares nothing; otherwise the own name is inserted
     ok7 = prove(PROPS_DECLRT)
+    if parts:
+        ctx.coverage["theorems"] = [t for p in parts for t in p["theorems"]]
+        ctx.coverage["nonvacuity_examples"] = sum(p["nonvacuity_examples"] or 0 for p in parts)
+        ctx.coverage["axioms"] = {k: v for p in parts for k, v in (p["axioms"] or {}).items()}
     ok2 = ok2 and ok3 and ok4 and ok5 and ok6 and ok7
     if not (ok1 and ok2):
         ctx.lake_build(["rotov-driver"])
